@@ -307,9 +307,12 @@ int run_lin(const Args& a) {
             }
             per_key[i].push_back(e);
         }
-        for (auto& f : sc.fillers) {
-            std::pair<char*, std::size_t> o;
-            if (yget(sc.storage, f, o) == status::OK) { model[f] = std::string(o.first, o.second); }
+        bool do_coherence = sc.fillers.empty() || (rd / scenarios.size()) % 4 == 0;
+        if (do_coherence) {
+            for (auto& f : sc.fillers) {
+                std::pair<char*, std::size_t> o;
+                if (yget(sc.storage, f, o) == status::OK) { model[f] = std::string(o.first, o.second); }
+            }
         }
         main_ses.leave();
         // ---- check every key (evaluations = key sub-histories checked)
@@ -368,9 +371,12 @@ int run_lin(const Args& a) {
         }
         // ---- structure + three-way coherence at the quiescent point (C08 oracle)
         WalkResult wr;
-        coherence_check(rep, sc.storage, model, true, &wr);
+        // the big scenario (420 fillers) is cross-checked at every fourth of its quiescent points, the small ones always
+        if (do_coherence) {
+            coherence_check(rep, sc.storage, model, true, &wr);
+            rep.maxc("max_tree_depth", wr.max_depth);
+        }
         drain_alloc_problems(rep);
-        rep.maxc("max_tree_depth", wr.max_depth);
         alloc::Counters c_now = alloc::counters();
         if (c_now.node_allocs != c_prev.node_allocs) { rep.count("rounds_with_node_allocation"); }
         if (c_now.node_frees != c_prev.node_frees) { rep.count("rounds_with_node_release"); }
